@@ -341,18 +341,25 @@ func (w *world) finish(r *runResult) {
 		}
 	}
 	st := resource.WithWriteTime(time.Unix(0, sentinelTime))
-	if len(w.vgot) > len(w.pids) {
-		w.val.Set(toProto(fmsg{9001, 9001, 9001}), st)
-		w.val.Set(toProto(fmsg{9002, 9002, 9002}), st)
-	}
-	if len(w.cgot) > 0 || len(w.lossyC) > 0 {
-		w.coll.Update("zz", toProto(fmsg{9001, 9001, 9001}), resource.WithCreateIfAbsent(), st)
-		w.coll.Update("zz", toProto(fmsg{9002, 9002, 9002}), resource.WithCreateIfAbsent(), st)
-	}
-	// a PullID subscriber only hears about its own item: the sentinel is written to that item
-	for _, id := range w.pids {
-		w.coll.Update(id, toProto(fmsg{9001, 9001, 9001}), resource.WithCreateIfAbsent(), st)
-		w.coll.Update(id, toProto(fmsg{9002, 9002, 9002}), resource.WithCreateIfAbsent(), st)
+	// the sentinel writes are ordinary writes: if a turnstile has been left closed (a commit number that
+	// never left) they would wait for ever; that is recognised by the goroutines' wait states
+	if err := bounded("the sentinel write", func() {
+		if len(w.vgot) > len(w.pids) {
+			w.val.Set(toProto(fmsg{9001, 9001, 9001}), st)
+			w.val.Set(toProto(fmsg{9002, 9002, 9002}), st)
+		}
+		if len(w.cgot) > 0 || len(w.lossyC) > 0 {
+			w.coll.Update("zz", toProto(fmsg{9001, 9001, 9001}), resource.WithCreateIfAbsent(), st)
+			w.coll.Update("zz", toProto(fmsg{9002, 9002, 9002}), resource.WithCreateIfAbsent(), st)
+		}
+		// a PullID subscriber only hears about its own item: the sentinel is written to that item
+		for _, id := range w.pids {
+			w.coll.Update(id, toProto(fmsg{9001, 9001, 9001}), resource.WithCreateIfAbsent(), st)
+			w.coll.Update(id, toProto(fmsg{9002, 9002, 9002}), resource.WithCreateIfAbsent(), st)
+		}
+	}); err != nil {
+		r.err = err
+		return
 	}
 	// each PullID reader has either seen its sentinel or the close of its channel
 	for t := range w.pids {
@@ -393,7 +400,12 @@ func (w *world) finish(r *runResult) {
 			if closed {
 				continue
 			}
-			w.coll.Update(id, toProto(fmsg{9003, 9003, 9003}), resource.WithCreateIfAbsent(), st)
+			if err := bounded("the sentinel write", func() {
+				w.coll.Update(id, toProto(fmsg{9003, 9003, 9003}), resource.WithCreateIfAbsent(), st)
+			}); err != nil {
+				r.err = err
+				return
+			}
 		}
 		for {
 			got, err := w.readerStep(t)
@@ -471,6 +483,35 @@ func (w *world) finish(r *runResult) {
 	w.mu.Unlock()
 }
 
+// bounded runs f on a goroutine of its own and gives up when every goroutine has come to rest without f
+// having returned (f is blocked for good)
+func bounded(what string, f func()) error {
+	done := make(chan struct{})
+	go func() {
+		defer close(done)
+		f()
+	}()
+	start := time.Now()
+	for {
+		select {
+		case <-done:
+			return nil
+		case <-time.After(2 * time.Millisecond):
+		}
+		if stuck(start) {
+			select {
+			case <-done:
+				return nil
+			default:
+			}
+			return fmt.Errorf("%s is blocked for good (every goroutine is waiting): a write cannot get past the turnstile, or a subscriber has stopped receiving", what)
+		}
+		if time.Since(start) > stepTimeout {
+			return fmt.Errorf("%s did not return within %v", what, stepTimeout)
+		}
+	}
+}
+
 // list returns the collection's contents by stored id; the ids are recovered through a
 // subscription-free route: List is sorted by id, and the scenario's ids are known
 func (w *world) list() []kv {
@@ -528,6 +569,99 @@ type probe struct {
 	holder, other int
 	point         string
 	blocked       *bool
+	// turnstile: holder is parked at its *.publish with the earlier commit; other (a later commit parked at
+	// its *.publish, or a Delete about to commit) is released and must wait in the turnstile until holder
+	// has published; recorded as [holder, other] if it did wait, as [other, holder] (what happened) if not
+	turnstile bool
+}
+
+// tickets mirrors the model's enabledness (Conc/Lts.v gate_open) on the Go side, from what the controller
+// can see: where each thread is parked and which commits have been made.  A publish step is enabled only
+// for the oldest unpublished commit of its resource; a Delete that would commit is not enabled while a
+// commit of the collection is unpublished (in the code it would wait in the turnstile holding the write
+// lock).  Whether a Delete's next step commits is known only partly here: it does NOT when the item it
+// saw has been replaced or removed since (it retries) or was absent (it returns); otherwise it is taken
+// to commit (conservative: a schedule is never generated that the model would not follow; `agrees`
+// checks st_stutter = 0, so a divergence between this mirror and the model cannot go unnoticed).
+type tickets struct {
+	sc           *scenario
+	pendV, pendC []int
+	inV, inC     map[int]bool
+	ver          map[string]int
+	present      map[string]bool
+	seenVer      map[int]int
+	seenPresent  map[int]bool
+}
+
+func newTickets(sc *scenario) *tickets {
+	k := &tickets{sc: sc, inV: map[int]bool{}, inC: map[int]bool{}, ver: map[string]int{}, present: map[string]bool{},
+		seenVer: map[int]int{}, seenPresent: map[int]bool{}}
+	for _, it := range sc.cinit {
+		k.present[it.id] = true
+	}
+	return k
+}
+
+func (k *tickets) enabled(t int, th *thread) bool {
+	if th.ended || th.steps == 0 {
+		return true
+	}
+	switch th.at {
+	case "value.publish":
+		return len(k.pendV) > 0 && k.pendV[0] == t
+	case "coll.publish":
+		return len(k.pendC) > 0 && k.pendC[0] == t
+	case "del.read", "del.retry":
+		if len(k.pendC) == 0 {
+			return true
+		}
+		id := k.sc.prog[t].id
+		return k.ver[id] != k.seenVer[t] || !k.seenPresent[t]
+	}
+	return true
+}
+
+func dropInt(l []int, t int) []int {
+	out := l[:0:0]
+	for _, x := range l {
+		if x != t {
+			out = append(out, x)
+		}
+	}
+	return out
+}
+
+// after records what the step thread t has just completed did to the turnstiles
+func (k *tickets) after(t int, th *thread, res fout) {
+	c := k.sc.prog[t]
+	if th.ended || (th.wantAdopt && th.callerEnded) {
+		k.pendV, k.pendC = dropInt(k.pendV, t), dropInt(k.pendC, t)
+		if c.kind == kDelete && res.code == 0 && res.msg != nil && !k.inC[t] {
+			k.inC[t] = true // counted once
+			k.ver[c.id]++
+			k.present[c.id] = false
+		}
+		return
+	}
+	switch th.at {
+	case "value.publish":
+		if !k.inV[t] {
+			k.inV[t] = true
+			k.pendV = append(k.pendV, t)
+		}
+	case "coll.publish":
+		if !k.inC[t] {
+			k.inC[t] = true
+			k.pendC = append(k.pendC, t)
+			if c.genCands == nil {
+				k.ver[c.id]++
+				k.present[c.id] = true
+			}
+		}
+	case "del.read", "del.retry":
+		k.seenVer[t] = k.ver[c.id]
+		k.seenPresent[t] = k.present[c.id]
+	}
 }
 
 // runSchedule forces `prefix`, then keeps choosing by `pick` until every thread has ended.
@@ -553,6 +687,7 @@ func runScheduleProbe(sc *scenario, prefix []int, pick func(alive []int) int, pr
 			recvLeft[t] = c.nrecv
 		}
 	}
+	tk := newTickets(sc)
 	for step := 0; ; step++ {
 		// alive: may be scheduled now; a thread held back by sc.after is not (it is not ended either)
 		var alive []int
@@ -581,6 +716,42 @@ func runScheduleProbe(sc *scenario, prefix []int, pick func(alive []int) int, pr
 			}
 			break
 		}
+		// only the steps the model has enabled are scheduled (the turnstile: publications in commit order)
+		live := alive
+		alive = nil
+		for _, t := range live {
+			if tk.enabled(t, threads[t]) {
+				alive = append(alive, t)
+			}
+		}
+		if len(alive) == 0 {
+			r.err = fmt.Errorf("no step is enabled although threads %v have not ended (turnstile queues %v %v)", live, tk.pendV, tk.pendC)
+			break
+		}
+		if pr != nil && step == pr.at && pr.turnstile {
+			b, err := ctl.probeTurnstile(threads[pr.holder], threads[pr.other])
+			if err != nil {
+				r.err = fmt.Errorf("probe: %v", err)
+				break
+			}
+			*pr.blocked = b
+			if w.hasLossy() {
+				if err := settle(); err != nil {
+					r.err = fmt.Errorf("probe: %v", err)
+					break
+				}
+			}
+			first, second := pr.holder, pr.other
+			if !b {
+				first, second = pr.other, pr.holder // what happened: the later commit published first
+			}
+			tk.after(first, threads[first], r.results[first])
+			tk.after(second, threads[second], r.results[second])
+			r.alive = append(r.alive, []int{first}, []int{second})
+			r.sched = append(r.sched, first, second)
+			step++
+			continue
+		}
 		if pr != nil && step == pr.at {
 			b, err := ctl.probeLockHeld(threads[pr.holder], pr.point, threads[pr.other])
 			if err != nil {
@@ -594,7 +765,9 @@ func runScheduleProbe(sc *scenario, prefix []int, pick func(alive []int) int, pr
 					break
 				}
 			}
-			r.alive = append(r.alive, alive, alive)
+			tk.after(pr.holder, threads[pr.holder], r.results[pr.holder])
+			tk.after(pr.other, threads[pr.other], r.results[pr.other])
+			r.alive = append(r.alive, []int{pr.holder}, []int{pr.other})
 			r.sched = append(r.sched, pr.holder, pr.other)
 			step++
 			continue
@@ -628,6 +801,7 @@ func runScheduleProbe(sc *scenario, prefix []int, pick func(alive []int) int, pr
 			r.err = fmt.Errorf("step %d (thread %d): %v", step, t, err)
 			break
 		}
+		tk.after(t, threads[t], r.results[t])
 		if w.hasLossy() {
 			if err := settle(); err != nil {
 				r.err = fmt.Errorf("step %d (thread %d): %v", step, t, err)
@@ -1045,6 +1219,42 @@ func genC03(o *vcoq.Out, r *vcoq.Rand, tier string) error {
 		}
 		emitCase(o, ps.sc, rr, []string{"lock-held-probe"})
 	}
+	// turnstile probes: two commits of one resource are unpublished (the earlier thread parked at its
+	// *.publish); the later one -- a Set / Update at its *.publish, or a Delete about to commit under the
+	// lock -- is released and must wait in the turnstile (goroutine wait state) until the earlier one has
+	// published, which it must be able to do although a waiting Delete holds the write lock.  This ties
+	// "publish enabled only in commit order" (and "the turnstile closes no cycle") to the code.  If the
+	// later commit is not kept back the run goes on: the schedule that really happened ([later, earlier]) is
+	// recorded and judged like any other -- the model does not follow it and the subscriber's view is stale.
+	tprobes := []probeSpec{
+		{"value", &scenario{vinit: &vinit0, prog: []*fcall{mkCall(vt("set-delta"), 0, base), mkCall(vt("set-delta"), 1, base), subCall(true, plain)}},
+			[]int{2, 0, 0, 1, 1}, probe{at: 5, holder: 0, other: 1, turnstile: true}},
+		{"value-masked", &scenario{vinit: &vinit0, prog: []*fcall{mkCall(vt("set-masked"), 0, base), mkCall(vt("set-delta"), 1, base), subCall(true, roVariants[1])}},
+			[]int{0, 0, 2, 1, 1}, probe{at: 5, holder: 0, other: 1, turnstile: true}},
+		{"update", &scenario{cinit: collInit(true), prog: []*fcall{mkCall(ct("upsert"), 0, base), mkCall(ct("upsert-delta"), 1, base), subCall(false, plain)}},
+			[]int{2, 0, 0, 1, 1}, probe{at: 5, holder: 0, other: 1, turnstile: true}},
+		{"update-other-id", &scenario{cinit: collInit(true), prog: []*fcall{mkCall(ct("update-other-id"), 0, base), mkCall(ct("upsert"), 1, base), subCall(false, roVariants[2])}},
+			[]int{2, 0, 0, 1, 1}, probe{at: 5, holder: 0, other: 1, turnstile: true}},
+		// the Delete reads after the Update's save (so its recheck passes), commits under the lock and waits
+		{"delete", &scenario{cinit: collInit(true), prog: []*fcall{mkCall(ct("upsert"), 0, base), mkCall(ct("delete-allow-missing"), 1, base), subCall(false, plain)}},
+			[]int{2, 0, 0, 1}, probe{at: 4, holder: 0, other: 1, turnstile: true}},
+		{"delete-other-id", &scenario{cinit: collInit(true), prog: []*fcall{mkCall(ct("update-other-id"), 0, base), mkCall(ct("delete-allow-missing"), 1, base), subCall(false, plain)}},
+			[]int{2, 1, 0, 0}, probe{at: 4, holder: 0, other: 1, turnstile: true}},
+	}
+	for _, ps := range tprobes {
+		blocked := false
+		ps.pr.blocked = &blocked
+		ps.sc.tags = []string{"probe:turnstile-" + ps.name}
+		rr := runScheduleProbe(ps.sc, ps.prefix, lowest, &ps.pr)
+		if rr.err == nil && !blocked {
+			o.Directs = append(o.Directs, vcoq.Direct{
+				What:   "turnstile not held (" + ps.name + "): with an earlier commit of the same resource still unpublished, a later commit was published first (publications must leave in commit order, or a subscriber's view can stay stale for ever)",
+				Class:  "turnstile-not-held:" + ps.name,
+				Replay: map[string]any{"program": jsProg(ps.sc), "schedule": rr.sched},
+			})
+		}
+		emitCase(o, ps.sc, rr, []string{"turnstile-probe"})
+	}
 	// Subscribers WITHOUT backpressure (the default): Pull and PullID, the consumer receiving at chosen
 	// points of the schedule (reader steps) and until nothing is offered once every call has returned.
 	// What the bus hands to mergeCollectionExcess must be an edit script relative to the seed, what
@@ -1180,6 +1390,11 @@ func genC03(o *vcoq.Out, r *vcoq.Rand, tier string) error {
 		rr := runSchedule(sc, nil, func(alive []int) int { return alive[r.Intn(len(alive))] })
 		emitCase(o, sc, rr, nil)
 	}
+	nfree := 400
+	if tier == "thorough" {
+		nfree = 6000
+	}
+	stress03(o, r, base, nfree)
 	return nil
 }
 
